@@ -18,8 +18,8 @@ def plan(tier):
                 watchdog_s=2400 if tier == 'quick' else 14000,
                 rule='the 12 non-linear-capable shell models, cylinders and cones up to 45 deg, states with out-of-plane amplitudes 0.05..3 wall thicknesses, '
                      'B-coupled laminates, orders m1<=%d, m2,n2<=%d, grids with nx,nt >= 4x the highest wave number, trapezoid and Simpson rules, 1..8 '
-                     'integration threads; load factor 0.2..1.3 with prescribed shortening and/or twist (40%), initial imperfection coefficients with the three imperfection '
-                     'function families (30%), the zero free state (20%); 4 random directions per state plus a full Jacobian for the known-finding classifier; non-trivial = state with '
+                     'integration threads; load factor 0.2..1.3 with prescribed shortening and/or twist (40%%), initial imperfection coefficients with the three imperfection '
+                     'function families (30%%), the zero free state (20%%); 4 random directions per state plus a full Jacobian for the known-finding classifier; non-trivial = state with '
                      'non-zero harmonic amplitudes; distinct = hash of the description' % ((3, 2) if tier == 'quick' else (6, 4)),
                 assumptions=['fint is a polynomial of degree <= 4 of the amplitudes (5-point stencils at h and h/2 must agree)',
                              'identical nx, nt, ni_method for calc_kT and calc_fint: the discretised pair must be consistent exactly'])
